@@ -9,4 +9,12 @@ PROPS = {
         trusted=["parse_to_tree's cursor loop (nested odict insertion) is outside the proved set: bounded only",
                  "splitter (CommonFormatter.split = str.split) is opaque"],
     ),
+    "C18": dict(
+        level="exploration",
+        modules=[],
+        bounded=[("bounded.c18", "run")],
+        assumes=["A6", "A9"],
+        trusted=["model strings are synthesised per regex chain (one per devdb sequence): the one non-exhaustive ingredient"],
+        rule="exhaustive over the finite configuration space",
+    ),
 }
